@@ -597,7 +597,7 @@ func c02hist(c *ctx, faults string, ops []string) {
 				}
 				n, _ := strconv.Atoi(f[1:])
 				if f[0] == 'b' {
-					p.Sim.Faults.AdminBad[n] = "No such server."
+					p.Sim.Faults.AdminBad[n] = "REFUSE"
 				} else {
 					p.Sim.Faults.AdminErr[n] = true
 				}
@@ -732,6 +732,9 @@ func c02histGen(c *ctx, r *gen.Rng, n int) {
 	cfg := world.DefaultGen()
 	cfg.Classes = false
 	cfg.MaxBatches = 8
+	// a secret whose file name contains the word HAProxy answers a successful commit with: refusals echo the file name
+	// (seed C02g matches the answer case-insensitively)
+	cfg.Secrets = append(append([]string{}, cfg.Secrets...), "success")
 	for i := 0; i < n; i++ {
 		g := world.NewGen(r.Fork(), cfg)
 		ops := g.History()
@@ -1025,6 +1028,15 @@ func runC02(c *ctx) {
 		"sec+d/tls1!tls!1000!a.local+b.local sec+e/tls1!tls!1000!a.local+b.local "+
 		"ing+d/i1@1!haproxy,-!-!a.local>/:Prefix:app:80!a.local>tls1!- ing+e/i2@2!haproxy,-!-!b.local>/:Prefix:app:80!b.local>tls1!- sync "+
 		"sec~d/tls1!tls!1001!a.local+b.local sec~e/tls1!tls!1001!a.local+b.local sync"))
+	// a certificate renewal whose `set ssl cert` / `commit ssl cert` is REFUSED by HAProxy (the refusal echoes the file
+	// name), for every position of the refused command and file names that contain the words of HAProxy's own
+	// answers (seed C02g reads "success" anywhere in the answer as OK): refused => reload
+	for _, sec := range []string{"success", "tls1", "transaction"} {
+		for k := 0; k < 6; k++ {
+			c02hist(c, "b"+strconv.Itoa(k), strings.Fields("svc+d/app!http:80:8080!- ep~d/app!10.0.1.1:r:app-1 sec+d/"+sec+"!tls!1!a.local "+
+				"ing+d/i1@1!haproxy,-!-!a.local>/:Prefix:app:80!a.local>"+sec+"!- sync sec~d/"+sec+"!tls!2!a.local sync ep~d/app!10.0.1.2:r:app-2 sync"))
+		}
+	}
 	// 8f7ea63: the service behind --default-backend-service goes away: no host changes, a reload is needed
 	c02hist(c, "-", strings.Fields("opt~db=d/web svc+d/web!http:80:8080!- ep~d/web!10.0.3.1:r:web-1 svc+d/app!http:80:8080!- ep~d/app!10.0.1.1:r:app-1 "+
 		"ing+d/i1@1!haproxy,-!-!a.local>/a:Prefix:app:80!-!- sync svc-d/web sync"))
